@@ -47,6 +47,9 @@ pub enum Case {
         wr_rest: usize,
         rd_first: usize,
         rd_rest: usize,
+        /// the -o target already exists and holds a longer, older spectrum file
+        #[serde(default)]
+        stale_out: bool,
     },
 }
 
@@ -168,6 +171,7 @@ impl Prop for C07 {
                 wr_rest: *rng.pick(&[0usize, 1, 3, 8, 100]),
                 rd_first: rng.range(1, 40),
                 rd_rest: *rng.pick(&[1usize, 5, 64, 8192]),
+                stale_out: rng.chance(1, 3),
             };
         }
         let mut spec = gen::gen_spec(&mut rng, 6, 7, max_elems, false);
@@ -300,7 +304,8 @@ impl Prop for C07 {
                 wr_rest,
                 rd_first,
                 rd_rest,
-            } => run_l2(producer, *to_file, consumer, *pipe, *wr_rest, *rd_first, *rd_rest, ctx, &mut out),
+                stale_out,
+            } => run_l2(producer, *to_file, consumer, *pipe, *wr_rest, *rd_first, *rd_rest, *stale_out, ctx, &mut out),
         }
         out
     }
@@ -357,6 +362,7 @@ impl Prop for C07 {
                 wr_rest,
                 rd_first,
                 rd_rest,
+                stale_out,
             } => {
                 if *wr_rest != 0 || *rd_rest != 65536 {
                     v.push(Case::L2 {
@@ -367,6 +373,7 @@ impl Prop for C07 {
                         wr_rest: 0,
                         rd_first: *rd_first,
                         rd_rest: 65536,
+                        stale_out: *stale_out,
                     });
                 }
                 if let Producer::View { spec, npy_out, precision } = producer {
@@ -384,6 +391,7 @@ impl Prop for C07 {
                             wr_rest: *wr_rest,
                             rd_first: *rd_first,
                             rd_rest: *rd_rest,
+                            stale_out: *stale_out,
                         });
                     }
                 }
@@ -397,14 +405,14 @@ impl Prop for C07 {
             Case::L1 { spec, npy, precision, wsched, rsched, bufcap } => json!({
                 "layer":"L1","history":"write then read back","format": if *npy {"npy"} else {"text"},"precision":precision,
                 "spectrum":spec.render(),"write_schedule":wsched,"read_schedule":rsched,"reader_buffer":bufcap}),
-            Case::L2 { producer, to_file, consumer, pipe, wr_rest, rd_first, rd_rest } => {
+            Case::L2 { producer, to_file, consumer, pipe, wr_rest, rd_first, rd_rest, stale_out } => {
                 let p = match producer {
                     Producer::View { spec, npy_out, precision } => json!({"cmd":"sfs view","npy_out":npy_out,"precision":precision,"spectrum":spec.render()}),
                     Producer::Fold { spec, precision } => json!({"cmd":"sfs fold","precision":precision,"spectrum":spec.render()}),
                     Producer::Create { callset, cfg, precision } => json!({"cmd":"sfs create","args":cfg.cli_args(),"precision":precision,"records":callset.recs.len()}),
                 };
                 json!({"layer":"L2","producer":p,"medium": if *to_file {"-o file / redirected file"} else if *pipe {"pipe"} else {"stdout->stdin via file"},
-                       "consumer":format!("sfs {consumer}"),"short_writes":wr_rest,"read_chunks":[rd_first, rd_rest]})
+                       "consumer":format!("sfs {consumer}"),"short_writes":wr_rest,"read_chunks":[rd_first, rd_rest],"output_file_preexists_longer":stale_out})
             }
         }
     }
@@ -444,6 +452,7 @@ impl Prop for C07 {
             "text_npy_text.checked",
             "size.more_than_4096_entries",
             "l2.pipeline.pipe",
+            "fault.stale_longer_output_file",
             "l2.pipeline.file",
             "l2.consumer.view",
             "l2.consumer.fold",
@@ -461,11 +470,12 @@ fn run_l2(
     wr_rest: usize,
     rd_first: usize,
     rd_rest: usize,
+    stale_out: bool,
     ctx: &mut Ctx,
     out: &mut Outcome,
 ) {
     // --- producer
-    let (mut args, files, stdin, what, in_spec): (Vec<String>, Vec<(String, String)>, Stdin, String, Option<(Spec, bool, usize)>) = match producer {
+    let (mut args, mut files, stdin, what, in_spec): (Vec<String>, Vec<(String, String)>, Stdin, String, Option<(Spec, bool, usize)>) = match producer {
         Producer::View { spec, npy_out, precision } => {
             let mut v = vec![];
             let _ = l1::write_spectrum(&mut v, &l1::scs_from(&spec.shape, &spec.bits), true, 0);
@@ -510,6 +520,14 @@ fn run_l2(
         args.push("@DIR@/out.sfs".into());
         args.push(pos);
         plan.output = Some(Target::File("out.sfs".into()));
+        if stale_out {
+            // storage history: the target holds an older, longer spectrum (2,000 values, text)
+            let old = Spec::from_vals(vec![40, 50], &(0..2000).map(|i| i as f64 + 0.5).collect::<Vec<_>>());
+            let mut v = vec![];
+            let _ = l1::write_spectrum(&mut v, &l1::scs_from(&old.shape, &old.bits), false, 6);
+            files.push(("out.sfs".into(), gen::hex(&v)));
+            out.count("fault.stale_longer_output_file", 1);
+        }
     } else {
         plan.output = Some(Target::Stdout);
     }
